@@ -216,6 +216,7 @@ def scenario_case(rep, scenario, cfg):
             before = copy.deepcopy({k: v for k, v in shared['cp'].items() if k != 'hook_class'})
             single = dict(cfgS, M=cfg['M'][:1], NP=1)
             run_once(c, single, xs=[z3.Real('y0')] * cfg['n'])
+            run_once(c, dict(cfgS, NP=cfg['NP'] + 1), xs=[z3.Real('y0')] * cfg['n'])  # (the SAME description with another number of parallel steps)
             _, u2, s2, _ = run_once(c, cfgS, xs=xs)
             after = {k: v for k, v in shared['cp'].items() if k != 'hook_class'}
             out['params_unchanged'] = (before == after, before, after)
@@ -341,6 +342,11 @@ def float_runs(scenario, cfg, x=0.7321):
         uA = PA.dtype_u(PA.init)
         uA[:] = x
         cA.run(uA, 0.0, cfg['dt'])
+        cB, _ = wr.build(dict(cS, NP=cfg['NP'] + 1), float_mode=True)
+        PB = cB.MS[0].levels[0].prob
+        uB = PB.dtype_u(PB.init)
+        uB[:] = x
+        cB.run(uB, 0.0, cfg['dt'] * (cfg['NP'] + 1))
         c2, _ = wr.build(cS, float_mode=True)
         _, b, _ = go(c2)
         return [(a, b)]
